@@ -163,7 +163,7 @@ def run(rep):
     # extended vocabulary (complex dtype, ...), kept separate so that the base sample is unchanged
     k = 300 if quick else 4000
     sel = exprs.select(progs, k // 3, rng, need_arg=True) + exprs.select(sims, k // 3, rng, need_arg=True) + exprs.select(loops, k // 3, rng)
-    ext = exprs.extended(rep, rng, 'c02-ext', ['cx', 'einsum', 'poly', 'search', 'dyn', 'arglen', 'monomial'], k // 40, quick=quick)
+    ext = exprs.extended(rep, rng, 'c02-ext', ['cx', 'einsum', 'poly', 'search', 'dyn', 'arglen', 'monomial', 'inflate3', 'uvc'], k // 40, quick=quick)
     rep.lap('generated')
     for name, ps in ext.items():
         sel += ps
